@@ -31,6 +31,14 @@ class Reader:
         self.pos = i + len(sep)
         return out
 
+    async def read(self, n=-1):
+        """StreamReader.read contract: returns AT MOST n bytes — whatever one network read delivered (here: 2 bytes)."""
+        avail = len(self.buf) - self.pos
+        k = min(avail, 2 if n < 0 else min(n, 2))
+        out = self.buf[self.pos:self.pos + k]
+        self.pos += k
+        return out
+
     async def readexactly(self, n):
         if self.pos + n > len(self.buf):
             raise EOFError('incomplete')
